@@ -12,6 +12,7 @@ from __future__ import annotations
 
 import functools
 import re
+import signal
 import warnings
 from typing import Any
 
@@ -362,6 +363,10 @@ def _diagnose(uin: np.ndarray, uout: np.ndarray, m: int, w: int, init: list,
     for i in itertools.permutations(sorted(init)):
         if list(i) != init and ok(list(i), final):
             return ':initial-mapping-wrong'
+    if len(init) > 4:
+        # (w!)^2 candidates: the hint is a diagnosis aid, not part of the
+        # verdict; on wide circuits say only that no single mapping explains it
+        return ':circuit-or-both-mappings-wrong'
     for i in itertools.permutations(sorted(init)):
         for f in itertools.permutations(sorted(final)):
             if ok(list(i), list(f)):
@@ -503,6 +508,21 @@ def _pam_barriers(case: dict, circ: Circuit, out: Circuit, m: int,
     return [], applied
 
 
+SABRE_CPU_LIMIT = 30
+"""CPU-seconds one placement+layout+routing run may take (unchanged tree:
+milliseconds).  SABRE-style flows contain no numerical search, so a run that
+burns this much CPU is looping; it is reported instead of silently eating
+the time budget of the whole batch."""
+
+
+class CaseTimeout(BaseException):
+    pass
+
+
+def _cpu_alarm(signum: int, frame: Any) -> None:
+    raise CaseTimeout()
+
+
 class JudgeBatch(BasePass):
     """Run and judge every case of `cases`."""
 
@@ -516,9 +536,21 @@ class JudgeBatch(BasePass):
         for case in self.cases:
             coro, st = start_case(case, self.seed)
             exc: BaseException | None = None
+            limited = case['flow'] == 'sabre'
+            if limited:
+                old = signal.signal(signal.SIGPROF, _cpu_alarm)
+                signal.setitimer(signal.ITIMER_PROF, SABRE_CPU_LIMIT)
             try:
                 await coro
+            except CaseTimeout:
+                exc = RuntimeError(
+                    'did not return within %d CPU-seconds'
+                    % SABRE_CPU_LIMIT)
             except Exception as e:  # noqa: judged, never escapes
                 exc = e
+            finally:
+                if limited:
+                    signal.setitimer(signal.ITIMER_PROF, 0)
+                    signal.signal(signal.SIGPROF, old)
             results.append(finish_case(case, st, exc))
         data['c09_results'] = results
